@@ -13,7 +13,8 @@
 (***************************************************************************)
 EXTENDS TwigSyntax, Json
 
-CONSTANTS MaxOps,        \* trees with 0..MaxOps binary operators
+CONSTANTS RichLeaves,    \* TRUE: leaves also include attribute/index access, filters, tests, function calls
+          MaxOps,        \* trees with 0..MaxOps binary operators
           PosOps         \* trees with <= PosOps operators are also placed in every position / spacing
 VARIABLE cs
 
@@ -22,9 +23,12 @@ sAB == <<97, 98>>      \* "ab"
 sB  == <<98>>          \* "b"
 Ctx == ("a" :> VI(7)) @@ ("b" :> VI(2)) @@ ("s" :> VS(sB)) @@ ("p" :> VB(TRUE)) @@ ("q" :> VB(FALSE))
 
-IntLeaves  == {LI(2), LI(3), Var("a")}
-StrLeaves  == {LS(sAB), Var("s")}
-BoolLeaves == {LB(TRUE), Var("q")}
+\* RichLeaves: operands that are attribute / index accesses, filter applications (with arguments), tests and calls
+IntLeaves  == {LI(2), LI(3), Var("a")} \cup (IF RichLeaves THEN {Attr(Var("o"), "x"), Item(Var("l"), LI(1)), Filt("length", Var("s"), <<>>),
+                                                                Filt("default", Var("nosuchvar"), <<LI(4)>>), Call("max", <<LI(1), LI(5)>>)} ELSE {})
+StrLeaves  == {LS(sAB), Var("s")} \cup (IF RichLeaves THEN {Filt("upper", Var("s"), <<>>), Filt("join", Var("l"), <<LS(<<45>>)>>)} ELSE {})
+BoolLeaves == {LB(TRUE), Var("q")} \cup (IF RichLeaves THEN {Test(Var("a"), "defined", <<>>, FALSE), Test(Var("nosuchvar"), "defined", <<>>, FALSE),
+                                                             Test(Var("b"), "even", <<>>, FALSE), Test(Var("a"), "even", <<>>, TRUE)} ELSE {})
 ListLeaves == {Lit(VL(<<VI(2), VI(6)>>))}
 PatLeaves  == {LS(<<47, 98, 47>>)}          \* '/b/'
 
